@@ -20,6 +20,7 @@ HARNESSES = [
     dict(name="sampling", src="props/sampling.cpp", variant="plain"),
     dict(name="opaque", src="props/opaque.cpp", variant="plain"),
     dict(name="gradients", src="props/gradients.cpp", variant="plain"),
+    dict(name="lifetime_asan", src="props/lifetime.cpp", variant="asan"),
     dict(name="history", src="props/history.cpp", variant="plain"),
     dict(name="history_asan", src="props/history.cpp", variant="asan"),
     dict(name="glyphs", src="props/glyphs.cpp", variant="plain"),
@@ -402,4 +403,21 @@ CHECKS["C14"] = dict(
     floor=T(50000, 1000000), nt_floor=T(10000, 200000),
     assumptions=["an alpha-map image attached to two owners is one shared object in the replicas too",
                  "the replica is built with one setter call per property in a fixed order; equality with the long-lived images is the property"],
+)
+
+CHECKS["C20"] = dict(
+    level="exploration",
+    rule=("rapidcheck histories over a pool of 6 image slots (bits with library-owned and caller-owned buffers, indexed, solid, "
+          "linear/radial/conical): create, ref, unref, set_destroy_function (callback checks image/data pairing and that the image "
+          "is intact), set_alpha_map (attach, re-attach the same, replace, detach, chains that must be refused), set_clip_region32, "
+          "set_transform, set_filter with parameter arrays (replaced several times), set_indexed, glyph-cache insert/remove of pool "
+          "images, drawing; then the pool is drained. Model: user reference count + 'held as alpha map by' edges. unref returns "
+          "TRUE exactly when the model's count reaches zero; each destroy callback fires exactly once and exactly then; maps stay "
+          "alive while attached and die with their owner; refused chains do not extend lifetimes; after draining the library's "
+          "live-allocation counter is back to its starting value; built with ASan (use after free, double free) and LSan. "
+          "Non-trivial = a map is unreferenced by the user before its owner, or an owned parameter buffer is replaced twice."),
+    jobs=[dict(harness="lifetime_asan", prop="lifetime", cases=T(15000, 300000), procs=T(8, 14))],
+    floor=T(80000, 2000000), nt_floor=T(15000, 300000),
+    assumptions=["images are never touched after the model says their last reference is gone (that would be a caller error)",
+                 "the live-allocation counter covers allocations made by the library (compile-time rename of malloc/calloc/realloc/free in the asan variant)"],
 )
